@@ -150,6 +150,95 @@ pub struct CmdScn {
     /// C13 only: instead of a program history, a timer set/clear history (crux_time keeps process-wide state)
     #[serde(default)]
     pub timers: Option<crate::cap::time::TScn>,
+    /// C03 only: instead of a modelled history, a task of the app crashes (panics) in the middle of a
+    /// call; the shell catches the unwind and carries on using the core
+    #[serde(default)]
+    pub task_fault: Option<TaskFaultScn>,
+}
+
+/// A crash of app code at a chosen point of a call: one task emits `before` events, then an event
+/// whose `update` returns a command that panics when first polled (`in_continuation`) - or the task
+/// panics itself after emitting everything -, then `after` more events that are queued behind.
+#[derive(Clone, Debug, PartialEq, Eq, Serialize, Deserialize)]
+pub struct TaskFaultScn {
+    pub host: HostSel,
+    pub before: u8,
+    pub after: u8,
+    pub in_continuation: bool,
+}
+
+/// Judged without the reference: the unwind must leave the core usable (view and further calls work),
+/// and every event the task emitted before the crash is applied exactly once, in emission order, at
+/// the latest by the next call.
+fn run_task_fault(id: &'static str, t: &TaskFaultScn, cov: &mut Cov) -> Result<RunInfo, Violation> {
+    use crate::cmd::ast::{Stmt, Task};
+    use crate::cmd::ops::LogEntry;
+    use crate::runner::catch;
+    let viol = |clause: &str, msg: String| Violation::new(format!("{id}:{clause}"), msg);
+    let mut stmts = vec![];
+    let mut expect = vec![];
+    for i in 0..t.before {
+        stmts.push(Stmt::Emit { tag: 10 + u32::from(i), cont: None });
+        expect.push(10 + u32::from(i));
+    }
+    if t.in_continuation {
+        let faulty = Cmd::Async(Task { label: 7002, stmts: vec![Stmt::Fault] });
+        stmts.push(Stmt::Emit { tag: 50, cont: Some(Box::new(faulty)) });
+        expect.push(50);
+    }
+    for i in 0..t.after {
+        stmts.push(Stmt::Emit { tag: 100 + u32::from(i), cont: None });
+        expect.push(100 + u32::from(i));
+    }
+    if !t.in_continuation {
+        stmts.push(Stmt::Fault);
+    }
+    let prog = Cmd::Async(Task { label: 7001, stmts });
+    let mut host = crate::cmd::hosts::make_host(t.host);
+    cov.bump(&format!("host:{:?}", t.host));
+    let injected = |loc_msg: &str| loc_msg.contains("injected task fault");
+    match catch(|| host.send_event(Event::Run(prog))) {
+        Err((_, msg)) if injected(&msg) => cov.bump("fault:task_panic_unwound_through_call"),
+        Ok(Err(e)) if injected(&e) => cov.bump("fault:task_panic_unwound_through_call"),
+        Err((loc, msg)) => return Err(viol(&format!("panic:{loc}"), format!("the call in which a task crashed panicked elsewhere: {msg}"))),
+        Ok(Err(e)) => return Err(viol("task_fault:call_failed", e)),
+        Ok(Ok(())) => cov.bump("task_fault_contained_by_core"),
+    }
+    if let Err((loc, msg)) = catch(|| host.settle()) {
+        return Err(viol("core_unusable_after_task_fault:view", format!("after a task crashed and the shell caught the unwind, reading the view panicked at {loc}: {msg}")));
+    }
+    match catch(|| host.send_event(Event::Noop)) {
+        Err((loc, msg)) => return Err(viol("core_unusable_after_task_fault:process_event", format!("after a task crashed and the shell caught the unwind, the next event panicked at {loc}: {msg}"))),
+        Ok(Err(e)) => return Err(viol("core_unusable_after_task_fault:process_event", e)),
+        Ok(Ok(())) => {}
+    }
+    match catch(|| host.send_event(Event::Run(Cmd::Event { tag: 900, label: 7003 }))) {
+        Err((loc, msg)) => return Err(viol("core_unusable_after_task_fault:process_event", format!("a later program panicked at {loc}: {msg}"))),
+        Ok(Err(e)) => return Err(viol("core_unusable_after_task_fault:process_event", e)),
+        Ok(Ok(())) => {}
+    }
+    expect.push(900);
+    let log = match catch(|| {
+        let _ = host.settle();
+        host.full_log()
+    }) {
+        Ok(l) => l,
+        Err((loc, msg)) => return Err(viol("core_unusable_after_task_fault:view", format!("reading the view panicked at {loc}: {msg}"))),
+    };
+    let got: Vec<u32> = log.iter().filter_map(|e| if let LogEntry::Em { tag, .. } = e { Some(*tag) } else { None }).collect();
+    // a task that crashes in the very poll in which it emitted takes those not yet handed-over events with
+    // it (they were in flight, like an unacknowledged write); what remains must still be in order, once each
+    let in_flight_lost_ok = !t.in_continuation && {
+        let mut it = expect.iter();
+        got.iter().all(|g| it.any(|e| e == g)) && got.last() == Some(&900)
+    };
+    if !t.in_continuation && got.len() < expect.len() && in_flight_lost_ok {
+        cov.bump("probe:events_of_the_crashed_poll_lost");
+    }
+    if got != expect && !in_flight_lost_ok {
+        return Err(viol("events_after_task_fault", format!("events emitted before a task crashed must be applied exactly once and in order by the next call at the latest: applied {got:?}, emitted {expect:?}")));
+    }
+    Ok(RunInfo { shape: mix(mix(u64::from(t.before), u64::from(t.after)), if t.in_continuation { 7 } else { 3 } + t.host as u64 * 16), nontrivial: t.after > 0, discarded: false })
 }
 
 #[derive(Clone, Debug, PartialEq, Eq, Serialize, Deserialize)]
@@ -297,6 +386,19 @@ impl Check for CmdCheck {
         } else {
             None
         };
+        let task_fault = {
+            let mut frng = rng.fork("task_fault?");
+            if self.id == "C03" && frng.chance(1, 50) {
+                Some(TaskFaultScn {
+                    host: *frng.pick(&[HostSel::CoreFx, HostSel::CoreCaps, HostSel::BridgeBincode, HostSel::BridgeJson]),
+                    before: frng.below(4) as u8,
+                    after: frng.below(5) as u8,
+                    in_continuation: frng.chance(2, 3),
+                })
+            } else {
+                None
+            }
+        };
         let mut crng = rng.fork("cfg");
         let mut cfg = GenCfg::swarm(&mut crng, thorough);
         let host = *crng.pick(self.hosts);
@@ -411,6 +513,7 @@ impl Check for CmdCheck {
             enumerate: self.enumerate,
             placement: None,
             timers,
+            task_fault,
         }
     }
 
@@ -422,6 +525,10 @@ impl Check for CmdCheck {
         if let Some(t) = &s.timers {
             cov.bump("timer_histories");
             return crate::cap::time::run_scn(t, cov, self.id);
+        }
+        if let Some(t) = &s.task_fault {
+            cov.bump("task_fault_histories");
+            return run_task_fault(self.id, t, cov);
         }
         let ck = self.checks();
         cov.bump(&format!("host:{:?}", s.scn.host));
@@ -527,6 +634,21 @@ impl Check for CmdCheck {
 
     fn shrink(&self, s: &CmdScn) -> Vec<CmdScn> {
         let mut out: Vec<CmdScn> = vec![];
+        if let Some(t) = &s.task_fault {
+            let mut scn = s.scn.clone();
+            if !scn.steps.is_empty() {
+                scn.steps.clear();
+                scn.drain_from = 0;
+                out.push(CmdScn { scn, ..s.clone() });
+            }
+            if t.before > 0 {
+                out.push(CmdScn { task_fault: Some(TaskFaultScn { before: t.before - 1, ..t.clone() }), ..s.clone() });
+            }
+            if t.after > 0 {
+                out.push(CmdScn { task_fault: Some(TaskFaultScn { after: t.after - 1, ..t.clone() }), ..s.clone() });
+            }
+            return out;
+        }
         if let Some(t) = &s.timers {
             if !s.scn.steps.is_empty() {
                 // the program part is not executed for a timer history
